@@ -29,13 +29,13 @@ CLAIMED = {
  "C07": dict(level="exploration", tech=TECH + "barrier commands (complete only if k commands are inside simultaneously) + simulator deadlock detection; token-by-token acquisition interleaved by the scheduler; oversize-cores rejection; round 5: Go-function tasks under contention, a Go-function task that runs a nested workflow while holding outer slots; round 6: rendezvous groups of Go-function tasks; round 7: re-run of a partly finished workflow under multi-core contention; release wave timed on an idle machine (late-admission: 5 simulated s, legitimate code needs 0)",
      text="Work conservation is decided by rendezvous commands under exact deadlock detection (admission into empty slots, a staggered rendezvous, and a release wave after a wide task returns its slots at once), contention by scheduling every individual token deposit / mutex operation, rejection of oversize processes by exit status and trace.",
      note="Sampled configurations and schedules.", ref="9 C07"),
- "C08": dict(level="exploration", tech=TECH + "recorder components on out-port edges; command durations over 6 orders of magnitude so completion order differs from arrival order; round 5: sources listing files in permuted order through FileCombinator (arrival order kept on every out-port); round 6: tagging components with recorders, taggers that leave some files untagged; round 7: a listed file that does not exist between ordered items",
+ "C08": dict(level="exploration", tech=TECH + "recorder components on out-port edges; command durations over 6 orders of magnitude so completion order differs from arrival order; round 5: sources listing files in permuted order through FileCombinator (arrival order kept on every out-port); round 6: tagging components with recorders, taggers that leave some files untagged; round 7: a listed file that does not exist between ordered items; round 8: the FileSplitter order shape run a second time with ten and more parts per file",
      text="Recorded per-edge sequences are compared with the reference order (or per-upstream projection for fan-in) under sampled schedules in which later tasks finish first.",
      note="Recorders are ordinary components built with the public API; they add a process per edge. Also recorded: FileSplitter parts, IPSelectorSync out-ports, several sub-stream carriers, a source that lists one file twice.", ref="9 C08"),
  "C09": dict(level="exploration", tech=TECH + "one or two injected failures per run (cmd-exit x3, cmd-signal, cmd-omit, cmd-list: && list whose middle step fails, bad-input x2) on tape-chosen tasks while siblings run; optional history: cleanup and second attempt with the same failure; round 5: failing command of a CommandToParams component, a parameter source nobody consumes, history start-again-in-place, producers killed by SIGPIPE; round 6: an output path that needs a tag the file does not carry, victims among tasks whose inputs differ only in the directory; round 7: victims among several processes without out-ports",
      text="Exit status, absence of the completion marker, absence of the victim's outputs at final paths and absence of start events of transitive dependants are checked for each sampled (workflow, victim, failure kind, schedule).",
      note="Failure kinds are those the statement lists. One genuine defect (F-C09-1: failing CommandToParams command could end in exit 0) was found by the component-command shape and repaired.", ref="9 C09"),
- "C10": dict(level="exploration", tech=TECH + "audit files parsed strictly and compared recursively with the lineage tree of the independent reference evaluation; Command compared with every word the simulated shell actually received (incl. Process.Prepend launchers); round 5: the record ON DISK of every file that passed a tagging component must hold the tag; sibling outputs of one task tagged alike; round 6: stale longer audit files at output paths, the audit file must be ONE JSON document, per-cent signs on command lines, duration = finish - start and the interval contains the execution; round 7: parameters that are not on the command line, sibling of a tagger on an idle machine",
+ "C10": dict(level="exploration", tech=TECH + "audit files parsed strictly and compared recursively with the lineage tree of the independent reference evaluation; Command compared with every word the simulated shell actually received (incl. Process.Prepend launchers); round 5: the record ON DISK of every file that passed a tagging component must hold the tag; sibling outputs of one task tagged alike; round 6: stale longer audit files at output paths, the audit file must be ONE JSON document, per-cent signs on command lines, duration = finish - start and the interval contains the execution; round 7: parameters that are not on the command line, sibling of a tagger on an idle machine; round 8: two tagging components attaching different values under one key (a run that reports completion must carry both downstream)",
      text="For every finalized output of every sampled (workflow, schedule) the audit JSON is compared field by field, recursively to the source files, with the reference lineage; timing sanity checked on the simulated clock.",
      note="Ids and absolute times excluded. Tags: inherited tags must be present, extras only from tagging components (a sibling consumer may legally see or not see a tag attached concurrently). Forward-only simulated clock.", ref="9 C10"),
  "C11": dict(level="fault_enumeration", tech=TECH + "histories that split one workflow over several runs: RunTo-then-Run, kill at EVERY crash state of the sampled schedule + cleanup + re-run, delete-outputs + re-run, and up to four further rounds of delete-and-run-again inside ONE simulated process (library globals not re-initialised); nested ancestor records compared byte-for-byte (as JSON values) with the audit files on disk before the resume; round 6: two workflows built up front in one program and run in sequence (Stage), per-cent signs on command lines; round 7: tags embedded in descendants compared with the ancestor file in every crash state of the tagger histories",
@@ -50,13 +50,13 @@ CLAIMED = {
  "C19": dict(level="exploration", tech=TECH + "each bundled component in a small generated workflow; map-iteration order (the combinators' head port), sender-goroutine interleavings and lock-step reads decided by the tape; oracles = Cartesian product / predicate filter / line conservation / arrival-order concatenation / independent glob; round 5: mixed tagged/untagged Concatenator inputs, FileGlobber emission order with 1-3 patterns, FileCombinator arrival order; round 6: a FileSource path without a file; round 7: large splitter inputs, the globber's second round, a ParamCombinator whose ports share one source",
      text="Schedule- and map-order-sensitive behaviour of the components is explored per sampled schedule; their input-space claims (all file lengths x split sizes, all glob patterns) are only sampled.",
      note="Ports of a combinator that share one upstream are limited to stream length <= bufsize, as the statement says. os/exec pipes are modelled (child goroutine, 64 KiB pipe, Wait closes the read end).", ref="9 C19"),
- "C12": dict(level="exploration", tech=TECH + "race-instrumented build (rewriter -race: map operations, struct fields through pointers, json object graphs) + in-simulator vector-clock happens-before checker with edges only from the simulated go/channel/close/mutex/WaitGroup operations (Go memory model); round 5: the bundled components, a second workflow created and run concurrently, nested workflows; round 6: indexed slice elements tracked, two gathering components side by side; round 7: one file entering through two FileSources, one branch tagging it in place",
+ "C12": dict(level="exploration", tech=TECH + "race-instrumented build (rewriter -race: map operations, struct fields through pointers, json object graphs) + in-simulator vector-clock happens-before checker with edges only from the simulated go/channel/close/mutex/WaitGroup operations (Go memory model); round 5: the bundled components, a second workflow created and run concurrently, nested workflows; round 6: indexed slice elements tracked, two gathering components side by side; round 7: one file entering through two FileSources, one branch tagging it in place; round 8: sync.Pool is deterministic in the shim (LIFO)",
      text="Each simulated schedule is a legal execution and the edge set equals the memory model's, so every reported pair is a race Go's detector would report on that execution; untracked locations (locals shared through explicit pointers, slice elements touched only by range/append/copy) can only be missed; locals captured by function literals, loop variables and indexed slice elements are tracked. One known finding (F-C12-1, unsynchronised Tags map of shared audit records) is matched by its write site and reported as KNOWN-FINDING; one race (F-C12-2) was repaired.",
      note="Go's own race detector cannot be used under the cooperative scheduler (its hand-offs would order everything). Logging at error level. The behavioural 'half-done' clause is covered through the race reports only.", ref="9 C12"),
  "C20": dict(level="exploration", tech=TECH + "audit trees produced by simulated runs with clock granularity 1ns/1ms/15ms and resumed histories (RunTo+Run with a time-zone change, kill at a crash state + cleanup + re-run); converted by the REAL scipipe CLI built from /repo; generated Bash script executed by the real bash with a native twin of the workload command; round 5: tasks identified by process + exact command in the listings, records without OutFiles (older version) in resumed histories; round 7: per-cent signs on command lines; the history of two programs within one second always runs under a coarse clock (found F-C20-3, fixed a3d1b02; crypto/rand simulated)",
      text="The converter is a pure function and runs natively; simulation supplies the clock- and history-dependent inputs (shared start times, zero-time sources, shared ancestors, records loaded from disk); one case in six converts a directly generated audit tree instead (listings only). Listing completeness/uniqueness/order and byte-identical reproduction are checked per case. Two defects (F-C20-1, F-C20-2) were repaired.",
      note="Native execution of the CLI and bash makes cases ~100x slower than pure simulation. Workflows keep their files in the working directory, as the statement requires.", ref="9 C20"),
- "C16": dict(level="exploration", tech=TECH + "generated graphs with one port left unconnected; RunTo/RunToRegex/RunToProcs with tape-chosen targets; oracle = reference closure vs execution trace; round 5: every script the program starts is recorded (CommandToParams sources in the graphs count as commands), RunTo* with an empty target set; round 6: an unconnected port inside a RunTo closure, a CommandToParams component as RunTo target; round 7: several processes without out-ports as RunTo targets, dotted process names",
+ "C16": dict(level="exploration", tech=TECH + "generated graphs with one port left unconnected; RunTo/RunToRegex/RunToProcs with tape-chosen targets; oracle = reference closure vs execution trace; round 5: every script the program starts is recorded (CommandToParams sources in the graphs count as commands), RunTo* with an empty target set; round 6: an unconnected port inside a RunTo closure, a CommandToParams component as RunTo target; round 7: several processes without out-ports as RunTo targets, dotted process names; round 8: inline flags in RunToRegex patterns, a later pattern that selects nothing",
      text="Refusal (exit!=0, empty trace) for unconnected ports and exact closure execution for RunTo are checked on sampled graphs and schedules.",
      note="One genuine defect (F-C16-1, fatal recursion with FromStr feeders) was repaired.", ref="9 C16"),
 }
